@@ -1205,7 +1205,15 @@ impl Interpreter {
             }
             VmResult::SuspendForOrder(order_suspension) => {
                 // Order suspension - waiting for host to provide a value
+                let answered = self
+                    .order_responses
+                    .contains_key(&order_suspension.order_id);
                 self.suspended_for_order = Some(order_suspension);
+                if answered && self.pending_orders.is_empty() && self.cancelled_orders.is_empty() {
+                    // The host answered this order before the program awaited it and there
+                    // is nothing to report: the next step resumes with the stored answer
+                    return Ok(StepResult::Continue);
+                }
                 let pending = mem::take(&mut self.pending_orders);
                 let cancelled = mem::take(&mut self.cancelled_orders);
                 Ok(StepResult::Suspended { pending, cancelled })
@@ -1424,7 +1432,15 @@ impl Interpreter {
             }
             VmResult::SuspendForOrder(order_suspension) => {
                 // Order suspension - waiting for host to provide a value
+                let answered = self
+                    .order_responses
+                    .contains_key(&order_suspension.order_id);
                 self.suspended_for_order = Some(order_suspension);
+                if answered && self.pending_orders.is_empty() && self.cancelled_orders.is_empty() {
+                    // The host answered this order before the program awaited it and there
+                    // is nothing to report: the next step resumes with the stored answer
+                    return Ok(StepResult::Continue);
+                }
                 let pending = mem::take(&mut self.pending_orders);
                 let cancelled = mem::take(&mut self.cancelled_orders);
                 Ok(StepResult::Suspended { pending, cancelled })
